@@ -65,6 +65,41 @@ func timestampRule(p *Prog, r *Report, rule string) {
 				}
 			}
 			el := ac.Call.Args[1]
+			// the element IS the witness's own claimed time on every path: each source of the value
+			// (through locals and phis) is a Timestamp() call on the event fetched for the loop's witness
+			srcLoop, _ := loopSource(gf, ac.Block())
+			isLoopElem := func(w ssa.Value) bool {
+				if srcLoop == nil {
+					return false
+				}
+				if u, isU := w.(*ssa.UnOp); isU && u.Op == token.MUL {
+					if ia, isIA := u.X.(*ssa.IndexAddr); isIA {
+						return sameOrigin(ia.X, srcLoop) || unwrap(ia.X) == unwrap(srcLoop)
+					}
+				}
+				if e, isE := w.(*ssa.Extract); isE {
+					if nx, isN := e.Tuple.(*ssa.Next); isN {
+						if rg, isR := nx.Iter.(*ssa.Range); isR {
+							return sameOrigin(rg.X, srcLoop) || unwrap(rg.X) == unwrap(srcLoop)
+						}
+					}
+				}
+				return false
+			}
+			okExact := allSources(el, func(y ssa.Value) bool {
+				tc, _, ok := isCallTo(y, named(HG+".Event.Timestamp"))
+				if !ok {
+					return false
+				}
+				// called on the event fetched for the loop's own witness
+				return flowsFromLocal(recvOf(tc), func(z ssa.Value) bool {
+					gc, idx, ok := isCallTo(z, storeM("GetEvent"))
+					return ok && idx == 0 && flowsFromLocal(lastArg(gc), isLoopElem)
+				})
+			})
+			if !okExact {
+				okElems = false
+			}
 			okTs := dependsOn(el, func(y ssa.Value) bool {
 				tc, _, ok := isCallTo(y, named(HG+".Event.Timestamp"))
 				if !ok {
